@@ -57,6 +57,7 @@ def provn_filter(doc):
 
 class C06(c01.C01):
     prop = "C06"
+    mutating_checks = True  # judge() edits a record of the document after it has been printed
 
     def __init__(self, tier, params=None):
         super().__init__(tier, params)
@@ -88,9 +89,36 @@ class C06(c01.C01):
                           {"error": err, "where": where, "text": text[:2500]}, hist, extra)
         elif got == want:
             out.outcomes["provn-agree"] += 1
+            self.judge_after_edit(doc, out, hist, where, extra)
         else:
             out.violation("provn-denotes-other-document", ",".join(observe.classify_diff(want, got)),
                           {"diff": observe.diff_obs(want, got), "where": where, "text": text[:2500]}, hist, extra)
+
+
+    def judge_after_edit(self, doc, out, hist, where, extra):
+        """the document was printed; now a record is edited through the editors that bypass add_attributes
+        (add_asserted_type, set_time) and the document is printed again: the text denotes the edited document"""
+        import datetime
+        from prov.constants import PROV
+        recs = list(doc.get_records()) + [r for b in doc.bundles for r in b.get_records()]
+        recs = [r for r in recs if r.get_type().uri not in NO_ID_ATTR]
+        if not recs:
+            return
+        r = recs[0]
+        r.add_asserted_type(PROV["Plan"])
+        for a in recs:
+            if a.get_type().uri == P + "Activity" and a.get_endTime() is None:
+                a.set_time(endTime=datetime.datetime(2031, 1, 2, 3, 4, 5))
+                break
+        want = observe.dobs(doc)
+        text = doc.get_provn()
+        got, err = provn_reader.read(text)
+        if err is not None or got != want:
+            out.violation("provn-stale-after-in-place-edit", "add_asserted_type/set_time",
+                          {"error": err, "diff": None if err else observe.diff_obs(want, got), "where": where,
+                           "text": text[:1500]}, hist, extra)
+        else:
+            out.outcomes["provn-agree-after-edit"] += 1
 
 
 def make_spec(tier, params):
